@@ -103,7 +103,8 @@ func authFamily(seed uint64, tier string, args []string) {
 	// --- proxy
 	for _, required := range permUniverse {
 		for _, dflt := range subsets() {
-			for ai, att := range append([][]auth.Permission{nil}, subsets()...) {
+			// index 0: nothing attached; index 1: a nil slice attached (an empty set all the same); then every subset
+			for ai, att := range append([][]auth.Permission{nil, nil}, subsets()...) {
 				attached := ai != 0
 				calls := 0
 				impl := authImpl{&calls}
@@ -185,9 +186,9 @@ func authFamily(seed uint64, tier string, args []string) {
 		}()
 	}
 	// --- HTTP handler
-	hdrs := []*string{nil, sp(""), sp("Bearer tokA"), sp("Bearer tokBad"), sp("Bearer "), sp("Bearer"), sp("bearer tokA"), sp("Basic tokA"), sp("tokA"), sp("Bearer  tokA"), sp("BearerX tokA"), sp(" Bearer tokA")}
-	queries := []*string{nil, sp(""), sp("tokA"), sp("tokBad"), sp("Bearer tokA"), sp("tokE")}
-	verifyTable := map[string][]auth.Permission{"tokA": {"read", "write"}, "tokE": {}, "": {"admin"}, " tokA": {"read"}}
+	hdrs := []*string{nil, sp(""), sp("Bearer tokA"), sp("Bearer tokBad"), sp("Bearer "), sp("Bearer"), sp("bearer tokA"), sp("Basic tokA"), sp("tokA"), sp("Bearer  tokA"), sp("BearerX tokA"), sp(" Bearer tokA"), sp("Bearer tokNil")}
+	queries := []*string{nil, sp(""), sp("tokA"), sp("tokBad"), sp("Bearer tokA"), sp("tokE"), sp("tokNil")}
+	verifyTable := map[string][]auth.Permission{"tokA": {"read", "write"}, "tokE": {}, "tokNil": nil, "": {"admin"}, " tokA": {"read"}}
 	for _, h := range hdrs {
 		for _, q := range queries {
 			var verifyCalls []string
